@@ -84,6 +84,17 @@ func (m *monC11) OnStep(r *Runner, st *Step) {
 		return
 	}
 	if fromDistr.GT(outOfModule) {
+		_, residues := settlementsOf(r, st.Events)
+		excused := true
+		for _, rs := range residues {
+			if !residuePrecondition(pre, rs.val) && !residuePrecondition(post, rs.val) {
+				excused = false
+			}
+		}
+		if !excused {
+			r.Violate("C11.c", "rewards-not-forwarded", fmt.Sprintf("%s %s of rewards withdrawn for a validator with alliance delegators stayed in the custody account", fromDistr.Sub(outOfModule), BondDenom))
+			return
+		}
 		m.residueBond = m.residueBond.Add(fromDistr.Sub(outOfModule))
 		r.Probe("c11_reward_residue_in_custody")
 	}
